@@ -130,6 +130,15 @@ static void drive_writer(vrng *r, uint8_t *wbuf, size_t wcap, const uint8_t *dat
     }
     size_t c; LIB(c = binson_writer_get_counter(&w)); (void)c;
     if (w.error_flags == BINSON_ERROR_NONE) LIB(b = binson_writer_verify(&w));
+    if (vrn(r, 4) == 0) {
+        /* a well-formed document nested 1..40 objects deep, checked with binson_writer_verify (whose own parser has 10 levels) */
+        int depth = 1 + (int)vrn(r, 40);
+        LIB(b = binson_writer_init(&w, wbuf, wcap));
+        for (int i = 0; i < depth; i++) { LIB(b = binson_write_object_begin(&w)); if (i + 1 < depth) LIB(b = binson_write_name(&w, "n")); }
+        for (int i = 0; i < depth; i++) LIB(b = binson_write_object_end(&w));
+        LIB(b = binson_writer_verify(&w));
+        lib_calls += (uint64_t)(3 * depth + 2);
+    }
     LIB(b = binson_writer_reset(&w));
     (void)b;
 }
@@ -200,6 +209,7 @@ static void nest_doc(vbuf *d, int od, int ad, uint32_t slen, bool with_double)
     vb_u8(d, 0x14); vb_u8(d, 1); vb_u8(d, 'a');
     for (int i = 0; i < ad; i++) vb_u8(d, 0x42);
     { uint8_t *s = (uint8_t *)malloc(slen + 1); memset(s, 'x', slen); ve_strlike(d, 0x14, s, slen); free(s); }
+    { uint32_t bl = slen > 20000 ? 20000 : slen; uint8_t *s = (uint8_t *)malloc(bl + 1); memset(s, 0xB7, bl); ve_strlike(d, 0x18, s, bl); free(s); }   /* a bytes value of the same order */
     ve_int(d, 0x10, 1234567);
     if (with_double) ve_double(d, 0x7FE1CCF385EBC8A0ULL);
     for (int i = 0; i < ad; i++) vb_u8(d, 0x43);
@@ -238,7 +248,7 @@ static void on_alt(void)
         for (int i = 1; i < a->od; i++) { binson_parser_field(p, "a"); binson_parser_go_into_object(p); }
         binson_parser_field_ensure(p, "a", BINSON_TYPE_ARRAY);
         for (int i = 0; i < a->ad; i++) { binson_parser_go_into_array(p); binson_parser_next(p); }
-        (void)binson_parser_get_string_bbuf(p); binson_parser_next(p); (void)binson_parser_get_integer(p);
+        (void)binson_parser_get_string_bbuf(p); binson_parser_next(p); (void)binson_parser_get_bytes_bbuf(p); binson_parser_next(p); (void)binson_parser_get_integer(p);
         for (int i = 0; i < a->ad; i++) binson_parser_leave_array(p);
         binson_parser_next(p);
         for (int i = 0; i < a->od; i++) binson_parser_leave_object(p);
@@ -276,7 +286,7 @@ static void stack_mode(void)
         size_t lo = (size_t)-1, hi = 0; char lo_at[64] = "", hi_at[64] = "";
         for (int warm = 0; warm < 2; warm++)          /* first pass warms up (lazy binding, stdio buffers) and is not counted */
             for (int i = 0; i < 4; i++) for (int j = 0; j < 2; j++) for (int k = 0; k < 2; k++) {
-                if (what == 1 && SLS[k] > 1) continue;                  /* text: keep the output small */
+                /* text functions too: a 70000-byte string and a 20000-byte bytes value (40 KB of hex) */
                 nest_doc(&d, ODS[i], ADS[j], SLS[k], false);
                 sarg a = { ODS[i], ADS[j], SLS[k], what, &d, 0 };
                 size_t u = measure(&a);
